@@ -65,7 +65,7 @@ def EXHAUSTIVE(tier):
     return False
 
 
-NSHARDS = 6
+NSHARDS = 8
 
 # scenario line -> (history line, class, exact)
 _HIST = {}
@@ -268,8 +268,7 @@ def scn_highlogon(rng):
 def scn_random(rng):
     s = Scn(rng)
     s.decide([rng.randint(0, 1) for _ in range(rng.randint(0, 8))])
-    if rng.random() < 0.95:
-        s.logon()
+    s.logon()
     for _ in range(rng.randint(2, 12)):
         r = rng.random()
         if r < 0.55:
@@ -297,18 +296,18 @@ def gen_cases(rng, tier):
         small = [x for x in shapes if len(x[0]) <= 2]
         big = [x for x in shapes if len(x[0]) > 2]
         rng.shuffle(big)
-        shapes = small + big[:260]
+        shapes = small + big[:100]
     for sh in shapes:
         cases.append(Case(scn_gap(rng, sh), "gap-shape"))
-    for _ in range(600 if thorough else 80):
+    for _ in range(600 if thorough else 50):
         cases.append(Case(scn_gap(rng, rng.choice(shapes), two=True), "two-gaps"))
-    for _ in range(1500 if thorough else 200):
+    for _ in range(1500 if thorough else 110):
         cases.append(Case(scn_nogap(rng), "nogap"))
-    for _ in range(800 if thorough else 120):
+    for _ in range(800 if thorough else 70):
         cases.append(Case(scn_restart(rng), "restart"))
-    for _ in range(300 if thorough else 60):
+    for _ in range(300 if thorough else 30):
         cases.append(Case(scn_highlogon(rng), "high-logon"))
-    for _ in range(3000 if thorough else 350):
+    for _ in range(3000 if thorough else 180):
         cases.append(Case(scn_random(rng), "random"))
     return cases
 
@@ -344,11 +343,14 @@ CLASSIFIERS = {
     "gap_without_gapfill": lambda case, r, m: _cls(case) == 2,
     # negation of the hypothesis "the counterparty's Logon carries the expected number"
     "logon_above_expected": lambda case, r, m: _cls(case) == 1,
+    # a Reject (35=3) arrives above the expected number (c20_gapfill_partial only lets application messages and
+    # Heartbeats reveal a gap: `reveals`)
+    "gap_revealed_by_reject": lambda case, r, m: _cls(case) == 3,
 }
 
 
 def extra_evidence(ctx):
-    cls = {0: 0, 1: 0, 2: 0}
+    cls = {0: 0, 1: 0, 2: 0, 3: 0}
     exact = 0
     resend = 0
     for c, r in zip(ctx["cases"], ctx["impl"]):
@@ -358,5 +360,5 @@ def extra_evidence(ctx):
             exact += 1 if h[2] else 0
         if "33353d32" in r:          # 35=2 in an OUT
             resend += 1
-    return {"c20": {"clean_histories": cls[0], "logon_above_expected": cls[1], "gap_without_gapfill": cls[2],
+    return {"c20": {"clean_histories": cls[0], "logon_above_expected": cls[1], "gap_without_gapfill": cls[2], "gap_revealed_by_reject": cls[3],
                     "exactly_once_histories": exact, "histories_with_resend_request": resend}}
